@@ -69,6 +69,7 @@ type c11rCeremony struct {
 	Add        int             `json:"add,omitempty"`
 	Seed       int             `json:"seed"`
 	FullRun    bool            `json:"full_run"`
+	NoVerify   bool            `json:"no_verify,omitempty"` // dkg.Config.NoVerify (the --no-verify flag)
 	Drop       *c11rDrop       `json:"drop,omitempty"` // lossy transport: node To loses the streams of kind Kind coming from node From
 	Dropped    int             `json:"streams_dropped,omitempty"`
 	NodeErrs   []string        `json:"node_errors,omitempty"`
@@ -175,6 +176,7 @@ func c11rRunLossy(t *testing.T, def cluster.Definition, dir string, p2pKeys []*k
 		PublishTimeout: 30 * time.Second,
 		Timeout:        8 * time.Second,
 	}
+	conf.NoVerify = c != nil && c.NoVerify
 	n := len(def.Operators)
 	errs := make([]error, n)
 	var wg sync.WaitGroup
@@ -442,8 +444,8 @@ func c11rScenario(t *testing.T, c *c11rCeremony, checks map[string]int) (string,
 		}
 		return key, what
 	}
-	if err := c11rRun(t, lock.Definition, srcDir, keys, nil); err != nil {
-		return "dkg:honest-ceremony-fails", fmt.Sprintf("dkg.Run (%s) among %d honest nodes, t=%d, %d validators fails: %v", c.Algo, c.N, c.T, c.Vals, err)
+	if _, err := c11rRunLossy(t, lock.Definition, srcDir, keys, nil, c); err != nil {
+		return "dkg:honest-ceremony-fails", fmt.Sprintf("dkg.Run (%s, no-verify=%v) among %d honest nodes, t=%d, %d validators fails: %v", c.Algo, c.NoVerify, c.N, c.T, c.Vals, err)
 	}
 	if c.Flow == "run" {
 		return c11rArtefacts(t, c, srcDir, c.Vals, checks)
@@ -514,7 +516,7 @@ func TestVerifC11Run(t *testing.T) {
 			t.Skip("not a dkg.Run replay")
 		}
 		r := wrap.Replay
-		todo = append(todo, c11rCeremony{Algo: r.Algo, Flow: r.Flow, N: r.N, T: r.T, Vals: r.Vals, Add: r.Add, Seed: r.Seed, FullRun: true, Drop: r.Drop})
+		todo = append(todo, c11rCeremony{Algo: r.Algo, Flow: r.Flow, N: r.N, T: r.T, Vals: r.Vals, Add: r.Add, Seed: r.Seed, FullRun: true, Drop: r.Drop, NoVerify: r.NoVerify})
 	} else if thorough {
 		todo = []c11rCeremony{
 			{Algo: "frost", Flow: "run", N: 3, T: 2, Vals: 2},
@@ -525,6 +527,14 @@ func TestVerifC11Run(t *testing.T) {
 			{Algo: "pedersen", Flow: "lossy", N: 4, T: 3, Vals: 1, Drop: &c11rDrop{Kind: "deal", From: 2, To: 0}},
 			{Algo: "pedersen", Flow: "lossy", N: 4, T: 3, Vals: 1, Drop: &c11rDrop{Kind: "resp", From: 1, To: 3}},
 		}
+		// thresholds below ceil(2n/3), with and without lock verification at the end of the ceremony
+		for _, nt := range [][2]int{{4, 2}, {5, 3}, {5, 2}} {
+			for _, nv := range []bool{true, false} {
+				todo = append(todo, c11rCeremony{Algo: "frost", Flow: "run", N: nt[0], T: nt[1], Vals: 1, NoVerify: nv})
+			}
+		}
+		todo = append(todo, c11rCeremony{Algo: "pedersen", Flow: "run", N: 4, T: 2, Vals: 1, NoVerify: true},
+			c11rCeremony{Algo: "pedersen", Flow: "run", N: 5, T: 3, Vals: 1, NoVerify: false})
 	} else {
 		// quick: one append scenario (= one plain ceremony, its artefacts checked, then the add-validators ceremony)
 		// the algorithm and the shape rotate with the seed
@@ -538,8 +548,10 @@ func TestVerifC11Run(t *testing.T) {
 		if ap.Algo == "pedersen" {
 			other = "frost"
 		}
-		// ... plus one small plain ceremony of the other algorithm, so that both are run through dkg.Run every time
-		todo = []c11rCeremony{ap, {Algo: other, Flow: "run", N: 3, T: 2, Vals: 1}}
+		// ... plus one plain ceremony of the other algorithm with a LOW threshold (below ceil(2n/3)) and lock verification
+		// switched off (--no-verify), rotating by seed, so that both algorithms are run through dkg.Run every time
+		low := [][2]int{{4, 2}, {5, 3}, {5, 2}}[(seed+1+3000)%3]
+		todo = []c11rCeremony{ap, {Algo: other, Flow: "run", N: low[0], T: low[1], Vals: 1, NoVerify: true}}
 		if os.Getenv("VERIF_C11_LOSSY") != "" || seed%3 == 0 {
 			// corpus: the minimised input of reading note N-C11-QUAL through the full ceremony (rotates in every third seed at quick)
 			todo = append(todo, c11rCeremony{Algo: "pedersen", Flow: "lossy", N: 4, T: 3, Vals: 1, Drop: &c11rDrop{Kind: "deal", From: 2, To: 0}})
@@ -555,6 +567,12 @@ func TestVerifC11Run(t *testing.T) {
 		key, what := c11rScenario(t, c, out.Checks)
 		c.Seconds = time.Since(start).Seconds()
 		out.Dist["dkg.Run_"+c.Algo+"_"+c.Flow]++
+		if c.NoVerify {
+			out.Dist["dkg.Run_no_verify"]++
+		}
+		if 3*c.T < 2*c.N {
+			out.Dist["dkg.Run_threshold_below_two_thirds"]++
+		}
 		if key != "" {
 			if key == "dkg:honest-ceremony-fails" {
 				c.Err = what
